@@ -801,6 +801,10 @@ func apiStream(r *vh.Rng, n int, maxOff int, sum *vh.Summary) {
 					noDeadline = true // every hung Decode keeps spinning; one is enough
 				case got.err == nil && binary[format]:
 					sum.FailC("api", cls, "Decode succeeds although the reader ended before the value was complete", c2)
+				case got.err == nil && kind == "error" && k > 0 && isNumCh(pre[k-1]):
+					// the delivered bytes end inside (or at the undecidable end of) a number: the decoder had to ask for
+					// more and was given the reader's error, which it may not swallow (json; binary is covered above)
+					sum.FailC("api", cls, "Decode succeeds although the reader failed (not EOF) while a number was being read", c2)
 				case got.err == nil && wantk.err != nil:
 					sum.FailC("api", cls, "Decode from a truncated reader succeeds where Decode from the same truncated []byte fails", c2)
 				case got.err == nil && !vh.DeepEq(got.v, wantk.v, vh.EqOpts{}):
